@@ -10,7 +10,7 @@ Module naming convention inside the harness crates:
 
 # jobs: parallel CBMC processes; ht: per-harness timeout (s); mem: address-space cap for the whole
 # cargo-kani process tree in GB (per process limit via ulimit -v)
-DEFAULT = dict(jobs=16, ht_quick=240, ht_thorough=1500, mem_gb=14)
+DEFAULT = dict(jobs=16, ht_quick=600, ht_thorough=1800, mem_gb=14)
 
 PROPS = {}
 
@@ -82,7 +82,7 @@ prop(
 
 prop(
     "C11",
-    runs=[dict(crate="core", quick=["c11::q::"], thorough=["c11::q::", "c11::qi::", "c11::t::"])],
+    runs=[dict(crate="core", quick=["c11::q::", "c03::s1::set_get"], thorough=["c11::q::", "c11::qi::", "c03::s1::"])],
     functions=["CompactOrderedHashMap::{empty, insert, get, get_index, get_pair, len, is_empty, contains_key, iter, indexed_iter}",
                "CompactOrderedHashMapIter::next"],
     bounds=("one insert(k, v) with k, v any usize from the valid pre-state of each representation: empty, One, Two, Three, Four, N5, N6, N7 "
@@ -166,3 +166,88 @@ prop(
     out=["road-class / turn-restriction / per-edge restriction lookups", "the search loop", "JSON parsing of vehicle parameters and road classes"],
     oracle="valid == (quantity * physical factor [/ axles] <= limit) outside the tolerance band; combined = conjunction with error propagation",
 )
+
+prop(
+    "C14",
+    runs=[dict(crate="pt", quick=["c14::q::"], thorough=["c14::q::", "c14::t::"])],
+    functions=["utils::find_nearest_index", "Interp1D::{new, linear, left_nearest, right_nearest, nearest}", "Interp2D::new", "Interpolator::{interpolate, validate_inputs}",
+               "InterpolationSpeedGradeModel::predict (built with the verification-only constructor verif_from_parts)"],
+    bounds=("axes: every strictly increasing axis of length 2, 3, 4 with finite values in [-1e3, 2e3]; table values any finite f64 in +-1e6; query point any f64 (in range for the lookup, outside for rejection, ANY finite speed / grade for predict); "
+            "grids 1-D x3, x4; 2-D 2x3 and 2x2; unwind 6-7"),
+    assumptions=[
+        "hook H2: InterpolationSpeedGradeModel::verif_from_parts (cfg(kani) only) wraps an interpolator; `new` (model file, linspace grid, underlying model evaluation) is NOT covered",
+        "the blend arithmetic is NOT decided: value within the corner range, value at 2-D/3-D grid points, exactness for multilinear data, 1-D/2-D/3-D/N-D agreement, continuity across cell borders (symbolic divisions and products: 240-420 s probe timeouts); N-D (ndarray) not covered",
+        "predict: query given in the model's own units (input unit conversion is property C09)",
+        "std::fmt::format stubbed",
+    ],
+    out=["interpolated value bounds / exactness", "InterpND", "bundled vehicle models, smartcore agreement"],
+    oracle="cell containment a[i] <= t <= a[i+1]; table value at 1-D grid points; neighbours for nearest strategies; Err outside grid / wrong dimension; predict never fails",
+)
+
+prop(
+    "C08",
+    runs=[dict(crate="pt", quick=["c08::q::"], thorough=["c08::q::", "c08::t::"])],
+    functions=["vehicle_ops::{soc_from_battery_and_delta, as_soc_percent, update_soc_percent}", "StateModel::{get_custom_f64, set_custom_f64}", "PredictionModelRecord::predict (cache = None)", "Energy::create", "EnergyRateUnit::associated_*"],
+    bounds=("charge arithmetic: capacity in [1e-3, 1e4], energies in +-1e4 (range claim), capacity pinned to {60, 0.5, 1000} for the unclamped formula; "
+            "predict: rate any finite f64 with 1e-6 <= |r| <= 1e3 (both signs) with adjustment and distance pinned per instance, or distance in [1e-3, 1e7] with rate and adjustment pinned; 5 (rate unit, distance unit) instances; unwind 4"),
+    assumptions=[
+        "the prediction model behind the record is a harness-defined implementation of the PredictionModel trait returning an arbitrary rate (the trait's contract), so speed / grade dependence is the model's business",
+        "vehicle types (BEV / ICE / PHEV consume_energy, best_case_energy_state, PHEV fuel switching) go through the state model BY FEATURE NAME: no verdict in 900 s (3 GB) - NOT covered; neither is update_from_query (serde_json) nor the prediction cache",
+        "exact clamp ends (charge == 100 when remaining >= capacity) and monotonicity in the energy used need reasoning about a symbolic division: no verdict in 600 s - NOT covered",
+        "update_soc_percent: one-feature state model (the charge feature) with CompactOrderedHashMap::{get, get_index} stubbed to resolve every name to the single entry; capacity pinned to 60; decided: range, direction of change, regeneration not lost at an empty battery",
+        "std::fmt::format stubbed",
+    ],
+    out=["BEV/ICE/PHEV state updates", "starting charge rejection", "prediction cache", "EnergyTraversalModel::traverse_edge"],
+    oracle="0 <= charge <= 100; charge = 100*(start-used)/capacity within 0.1% when not clamped; energy = rate x adjustment x distance within 0.2% in the rate's energy unit; sign preserved",
+)
+
+prop(
+    "C01",
+    runs=[dict(crate="core", quick=["c01::q::"], thorough=["c01::q::", "c01::t::"])],
+    functions=["Direction::{tree_key_vertex_id, terminal_vertex_id}", "backtrack::vertex_oriented_route"],
+    bounds=("orientation: any edge (ids any usize), both directions; backtrack: ANY edge table over 3 vertices / 2 edges (quick), 3/3 and 4/4 (thorough) with symbolic end points, ANY partial tree consistent with it (parent cycles, missing entries allowed), any origin != destination; unwind 6-7"),
+    assumptions=[
+        "hook H1: the tree type HashMap<VertexId, SearchTreeBranch> and the visited-edge HashSet are the fixed-capacity table models",
+        "that run_a_star only inserts branches consistent with the graph and never closes a parent cycle - the core of the property - needs the search loop, which could not be encoded (four encodings, no verdict in 19-25 min): NOT decided",
+        "edge-oriented wrappers, route concatenation in the ksp algorithms, route_contains_loop (itertools unique / hash sets) are NOT covered",
+        "std::fmt::format stubbed",
+    ],
+    out=["run_a_star / run_a_star_edge_oriented", "ksp route concatenation", "reverse-route re-orientation"],
+    oracle="key = far end, parent = near end; backtrack == follow parents (exact expected edge sequence): contiguous, repeat-free, origin-to-destination, or Err",
+)
+
+prop(
+    "C15",
+    runs=[dict(crate="core", quick=["c15::q::lookups", "c11::q::step_four", "c11::q::step_n5"], thorough=["c15::q::lookups", "c11::q::", "c11::qi::"])],
+    functions=["Graph::{get_edge, get_vertex, src_vertex_id, dst_vertex_id, incident_vertex, edge_triplet, out_edges, in_edges, incident_edges, n_edges, n_vertices}",
+               "CompactOrderedHashMap::{insert, keys} (adjacency instantiation <EdgeId, VertexId>)"],
+    bounds=("graph with 3 vertices and 2 edges with symbolic far ends, query ids any usize (in and out of range); plus the container step harnesses of C11 in the adjacency instantiation <EdgeId, VertexId> (quick: the representation switch 4 -> 5 and 5 -> 6 entries; thorough: every representation empty..7 and the iterating observers); unwind 5 / 40"),
+    assumptions=[
+        "the loader proper (CSV / gzip parsing, header and line counting, the row callback closure, scanned counts) is behind File::open and is NOT covered: the harness fills the adjacency containers with the same two inserts the callback performs",
+        "hook H1 table model for degrees >= 5",
+        "Graph::{out_edges, in_edges, incident_edges(_iter)} over a hub vertex of degree 1..7 (harness c15::adjacency, kept as a documented attempt): no verdict in 900 s in four formulations (a container read back through Box<[..]> has a discriminant CBMC cannot fold, so the NEntries arm - itertools sorted_by_key -> std stable sort - is explored at every degree) - NOT covered; the per-vertex edge listing is decided at container level only (C11: keys/iteration in index order)",
+        "per-edge side tables (speeds, grades, headings, classes) and vertex coordinates from files are NOT covered",
+    ],
+    out=["edge_loader / vertex_loader / read_utils / fs_utils", "gzip", "row alignment of side tables"],
+    oracle="row i or Err for every id, end points and triplets the edge's own; container: insertion-ordered map",
+)
+
+prop(
+    "C03",
+    runs=[dict(crate="core", quick=["c03::q::", "c03::s1::add_time", "c03::s1::add_distance"], thorough=["c03::q::", "c03::s1::"])],
+    functions=["EdgeHeading::{bearing_to_destination, start_heading, end_heading}", "Turn::from_angle", "TurnDelayAccessModelEngine::get_delay", "get_headings",
+               "StateModel::{add_distance, add_time, add_energy, set_energy, get_distance, get_time, get_energy} (one-feature models, container lookups stubbed)"],
+    bounds=("headings any i16 in 0..360; angle any i16; 8 table delays any finite f64 in [0, 1e4]; "
+            "state model: one-feature models, the added / set value any finite f64 in [1e-3, 1e6] (energy 1e4), the accumulator's previous content pinned to a non-zero constant, unit pairs s->min, km->mi, kWh->gal; unwind 4-10"),
+    assumptions=[
+        "hooks H1 (turn delay table, cost tables) and H2 (CostModel::verif_from_parts); rate kernels stubbed by their non-recursive equivalents (see C07)",
+        "EdgeTraversal::{forward_traversal, reverse_traversal} on a fixture instance (harness c03::l3, kept as a documented attempt): 17 GB with a neighbouring edge, no verdict in 1500 s even with a feature-less cost model - NOT covered, so the order 'access update for the network-ordered edge pair, then traversal update' is NOT decided",
+        "the real SpeedTraversalModel / DistanceTraversalModel / TurnDelayAccessModel::access_edge go through the state model by their hard-coded feature names and did not return (400-900 s probes): NOT covered - so 'time is length over table speed' is NOT decided",
+        "state-model harnesses: CompactOrderedHashMap::{get, get_index} are stubbed to resolve every name to the single entry of a one-feature model (slot resolution by name is the container's business, C11); the accumulator's previous content is a constant (with a symbolic one the convert-add-convert chain against an oracle did not return in 600 s); two-feature versions (own-slot-only) did not return in 900-1200 s and are kept as documented attempts (c03::s)",
+        "route-level accumulation by the search loop, reorient_reverse_route, the summary / traversal output plugins and output units are NOT covered",
+        "std::fmt::format and StateModel::get_names (error message) stubbed",
+    ],
+    out=["speed / distance traversal models", "search loop accumulation", "response JSON"],
+    oracle="wrapped angle congruent mod 360; documented turn sectors; table entry of the classified turn; access (network order pair) then traversal applied to a copy; costs = cost model's; unit-aware add = previous + converted value (0.2%)",
+)
+
